@@ -23,7 +23,7 @@ EXPLANATION = (
     'operands in evaluation order; (e) selectors only select; (f) composite '
     'operations accumulate into a fresh list.  Validity of produced DNAs over '
     'all spaces is not decided.')
-FLOORS = {'C14.a': 4, 'C14.b': 2, 'C14.c': 12, 'C14.d': 12, 'C14.e': 7, 'C14.f': 5}
+FLOORS = {'C14.a': 2, 'C14.b': 1, 'C14.c': 6, 'C14.d': 6, 'C14.e': 3, 'C14.f': 2}
 FILES = ['pyglove/ext/evolution/base.py', 'pyglove/ext/evolution/mutators.py',
          'pyglove/ext/evolution/recombinators.py', 'pyglove/ext/evolution/selectors.py',
          'pyglove/ext/evolution/where.py', 'pyglove/ext/evolution/nsga2.py']
@@ -104,7 +104,7 @@ def rule_a(ctx):
              f'{mname} never mutates the DNA(s) it was given (mutating calls only on a clone or on '
              f'freshly built DNAs)', m.loc,
              'caller-owned DNA is modified in place: ' + ', '.join(bad[:4]))
-  if n < 4:
+  if n < 2:
     raise AnalysisError(f'only {n} mutate/recombine overrides found')
   # Evolution._evolve: clone before metadata
   f = idx.func(E + 'base.Evolution._evolve')
@@ -244,7 +244,7 @@ def rule_c(ctx):
              'argument), never through the process-wide `random` module functions', f.loc,
              'global random used: ' + ', '.join(f'{A.call_name(c)}() line {c.lineno}' for c in direct)
              + ': a seeded operator is no longer a function of its seed and inputs')
-  if n < 10:
+  if n < 5:
     raise AnalysisError(f'only {n} randomness-using functions found')
   # generator derived from the seed in _on_bound of every class declaring `seed`
   for c in idx.all_classes():
@@ -319,7 +319,7 @@ def rule_e(ctx):
     ctx.ob('C14.e', m.fq, not bad,
            'a selector returns members of its input: nothing on the way to the result constructs, '
            'copies or modifies an individual', m.loc, ', '.join(bad))
-  if n < 6:
+  if n < 3:
     raise AnalysisError(f'only {n} selectors found')
 
 
@@ -362,7 +362,7 @@ def rule_f(ctx):
              'a child operation or its input)', f'{m.module.relpath}:{call.lineno}',
              f'`{var}` can be ' + ', '.join(bad) + ': growing it modifies the caller\'s population '
              'or another operation\'s result')
-  if n < 4:
+  if n < 2:
     raise AnalysisError(f'only {n} accumulating calls found in composite operations')
 
 
